@@ -83,6 +83,31 @@ CHECKS = {
             'by grouping parentheses and line breaks inside end if/for/while.',
             'Trusted: mc/refs/oalast.py span recording; wall-clock budget with a three-orders-of-magnitude margin.',
             'DESIGN.md section 5, C13; 3.5'),
+    'C04': ('explorer',
+            'explicit-state BFS over OAL statement sequences: each program runs on the real interpreter and on a reference evaluator over the relational model',
+            'From three setup programs (empty; 1:M + reflexive links; association class + chain + set) a breadth-first search '
+            'extends every distinct state (reference population + variable environment) with every statement of a typed menu '
+            '(all arithmetic, comparison, boolean and unary operators; attribute reads/writes; create/delete; relate/unrelate '
+            'with phrases and using; select any/many from instances with where clauses; select one/any/many along chains of '
+            'length 1-2 from instances and sets incl. the association-class two-hop form; if/elif/else; while with '
+            'break/continue/return/stop; for each with continue/break/delete/nested loops; every return form) to depth 2 '
+            '(quick) / 3 (thorough). Every candidate program, followed by generated statements that copy each variable in scope '
+            'into a PROBE instance, runs through interpret.run_function on a fresh Domain and through the reference evaluator; '
+            'return value, instance counts, attribute values, links and referential reads must agree.',
+            'Trusted: mc/refs/oaleval.py + relmodel.py. Programs the reference rejects (ill-typed, erroneous, diverging, '
+            'dialect-dependent arithmetic) are excluded, counted as out_of_domain.',
+            'DESIGN.md section 5, C04'),
+    'C08': ('enumerator',
+            'differential enumeration: every program under every per-keyword-kind case rendering (bounded product / deviations) through parser, interpreter and prebuild',
+            'Parse path: the 400+ statement programs of C07 (every production), every operand kind and operator expressions, '
+            'each under the full product of {lower, UPPER, Capitalised, mIxEd} per keyword kind for programs with <= 3 (thorough '
+            '5) kinds and uniform + all single + all double deviations otherwise; the tree must equal the printed tree with '
+            'keyword-text fields compared case-insensitively and .many exact. Interpret path: every setup+statement program of '
+            'the C04 menu under the three uniform non-lower renderings and each keyword kind of the last statement alone in '
+            'UPPER (thorough also mixed); result and final population must equal the reference. Prebuild path: canonical dump of '
+            'all prebuilt instances equal to the lower-case rendering (when the prebuild host of C05/C06 is present).',
+            'Trusted: oalast printer, oaleval reference.',
+            'DESIGN.md section 5, C08'),
 }
 
 NOT_YET = 'check not built yet in this revision (planned, see DESIGN.md section 5); not claimed until it exists'
